@@ -1,8 +1,323 @@
-//! C08 oracle: file presence and unlink discipline.
+//! C08 oracle: no needed file is ever removed.
+//!
+//! (1) Presence: every digest the on-disk manifest lists has a file in sst/.
+//! (2) Discipline, decided from the recorded system-call trace in order:
+//!     * nothing under sst/ and no log.N in the store root is ever unlinked;
+//!     * an SST is renamed into trash/ only while the manifest state of that moment does not
+//!       list it;
+//!     * a log is renamed into trash/ only when it is empty or the manifest state of that moment
+//!       lists the table holding its entries (digest recomputed from the bytes written to it);
+//!     * trash entries are unlinked only by a verifier pass, only after the verifier's own
+//!       manifest recorded the intent, and only if a store transaction recorded their removal;
+//!     * manifest fragments are unlinked only by a verifier pass.
+//! (3) After a verifier pass and after a reopen every key reads back unchanged.
+
+use std::collections::{BTreeMap, BTreeSet, HashMap};
+
 use crate::exec::Exec;
+use crate::fsx::{self, Ev};
 
 #[derive(Default)]
-pub struct FileWatch {}
+pub struct FileWatch {
+    pos: usize,
+    handles: HashMap<u64, String>,
+    linebuf: HashMap<u64, Vec<u8>>,
+    /// Digests listed by the store manifest at this point of the trace.
+    listed: BTreeSet<String>,
+    ever_removed: BTreeSet<String>,
+    logs_recorded: BTreeSet<String>,
+    /// The verifier's intent set (names under trash/).
+    intent: BTreeSet<String>,
+    in_verify: bool,
+    log_bytes: BTreeMap<String, Vec<u8>>,
+    pub renames_to_trash: u64,
+    pub unlinks_checked: u64,
+}
 
-pub fn check_presence(_ex: &mut Exec) {}
-pub fn check_verifier_unlinks(_ex: &mut Exec, _trace_from: usize) {}
+fn log_digest(bytes: &[u8]) -> Result<Option<String>, String> {
+    if bytes.is_empty() {
+        return Ok(None);
+    }
+    let mut it = sst::LogIterator::from_reader(sst::LogOptions::default(), std::io::Cursor::new(bytes.to_vec()))
+        .map_err(|e| format!("{e}"))?;
+    let mut acc = sst::Setsum::default();
+    let mut n = 0;
+    loop {
+        match it.next() {
+            Ok(Some(kv)) => {
+                match kv.value {
+                    Some(v) => acc.put(kv.key, kv.timestamp, v),
+                    None => acc.del(kv.key, kv.timestamp),
+                }
+                n += 1;
+            }
+            Ok(None) => break,
+            Err(e) => return Err(format!("{e}")),
+        }
+    }
+    if n == 0 {
+        Ok(None)
+    } else {
+        Ok(Some(acc.into_inner().hexdigest()))
+    }
+}
+
+impl FileWatch {
+    fn manifest_line(&mut self, which: &str, line: &str) {
+        // lines are "<8 hex crc><action><payload>" or the separator
+        if line.len() <= 8 || line == "--------" {
+            return;
+        }
+        let action = line.as_bytes()[8] as char;
+        let payload = &line[9..];
+        match (which, action) {
+            ("store", '+') => {
+                self.listed.insert(payload.to_string());
+            }
+            ("store", '-') => {
+                self.listed.remove(payload);
+                self.ever_removed.insert(payload.to_string());
+            }
+            ("store", 'L') => {
+                self.logs_recorded.insert(format!("log.{payload}"));
+            }
+            ("verify", '+') => {
+                self.intent.insert(payload.to_string());
+            }
+            ("verify", '-') => {
+                self.intent.remove(payload);
+            }
+            _ => {}
+        }
+    }
+}
+
+/// Process trace events recorded since the last call.  Returns the first violation, if any.
+fn scan_trace(ex: &mut Exec) -> Option<(String, String)> {
+    let events = fsx::trace_since(ex.c08.pos);
+    let w = &mut ex.c08;
+    w.pos += events.len();
+    for ev in events.iter() {
+        match ev {
+            Ev::Mark(m) => {
+                if m.contains(" verify begin") {
+                    w.in_verify = true;
+                } else if m.contains(" verify ") {
+                    w.in_verify = false;
+                }
+            }
+            Ev::Open { h, path, created, trunc } => {
+                w.handles.insert(*h, path.clone());
+                w.linebuf.remove(h);
+                if (*created || *trunc) && path.starts_with("log.") {
+                    w.log_bytes.insert(path.clone(), Vec::new());
+                }
+                if *trunc && path == "mani/MANIFEST" {
+                    return Some(("manifest-truncated".into(), "mani/MANIFEST opened with O_TRUNC".into()));
+                }
+            }
+            Ev::Write { h, off: _, data } => {
+                let path = match w.handles.get(h) {
+                    Some(p) => p.clone(),
+                    None => continue,
+                };
+                if path.starts_with("log.") && !path.contains('/') {
+                    w.log_bytes.entry(path.clone()).or_default().extend_from_slice(data);
+                }
+                let which = if path == "mani/MANIFEST" {
+                    "store"
+                } else if path == "verify/MANIFEST" {
+                    "verify"
+                } else {
+                    continue;
+                };
+                let buf = w.linebuf.entry(*h).or_default();
+                buf.extend_from_slice(data);
+                let mut lines = Vec::new();
+                while let Some(pos) = buf.iter().position(|b| *b == b'\n') {
+                    let line: Vec<u8> = buf.drain(..=pos).collect();
+                    lines.push(String::from_utf8_lossy(&line[..line.len() - 1]).to_string());
+                }
+                for l in lines {
+                    w.manifest_line(which, &l);
+                }
+            }
+            Ev::Rename { old, new } => {
+                if new == "mani/MANIFEST" && old == "mani/MANIFEST.tmp" {
+                    // roll-up replaces the file; state unchanged
+                    continue;
+                }
+                if new == "verify/MANIFEST" {
+                    continue;
+                }
+                if let Some(name) = new.strip_prefix("trash/") {
+                    w.renames_to_trash += 1;
+                    if let Some(digest) = name.strip_suffix(".sst") {
+                        if old.starts_with("sst/") && w.listed.contains(digest) {
+                            return Some((
+                                "sst-moved-to-trash-while-manifest-lists-it".into(),
+                                format!("rename {old} -> {new} while the manifest lists {digest}"),
+                            ));
+                        }
+                    } else if name.starts_with("log.") {
+                        let bytes = w.log_bytes.get(old).cloned().unwrap_or_default();
+                        match log_digest(&bytes) {
+                            Ok(None) => {}
+                            Ok(Some(d)) => {
+                                if !w.listed.contains(&d) {
+                                    return Some((
+                                        "log-moved-to-trash-before-its-table-is-listed".into(),
+                                        format!("rename {old} -> {new}: the log holds entries with digest {d}, which the manifest does not list"),
+                                    ));
+                                }
+                            }
+                            Err(e) => {
+                                return Some((
+                                    "log-unreadable-at-trash-time".into(),
+                                    format!("rename {old} -> {new}: {e}"),
+                                ));
+                            }
+                        }
+                    }
+                }
+            }
+            Ev::Unlink { path } => {
+                w.unlinks_checked += 1;
+                if path.starts_with("sst/") {
+                    return Some(("unlink-under-sst".into(), format!("unlink {path}")));
+                }
+                if path.starts_with("log.") && !path.contains('/') {
+                    return Some(("unlink-of-live-log".into(), format!("unlink {path}")));
+                }
+                if let Some(name) = path.strip_prefix("trash/") {
+                    if !w.in_verify {
+                        return Some((
+                            "trash-entry-unlinked-outside-verifier".into(),
+                            format!("unlink {path} outside a verifier pass"),
+                        ));
+                    }
+                    if !w.intent.contains(name) {
+                        return Some((
+                            "verifier-unlinked-without-durable-intent".into(),
+                            format!("unlink {path} but verify/MANIFEST does not record the intent"),
+                        ));
+                    }
+                    if let Some(digest) = name.strip_suffix(".sst") {
+                        if !w.ever_removed.contains(digest) {
+                            return Some((
+                                "verifier-unlinked-file-no-transaction-removed".into(),
+                                format!("unlink {path}: no store transaction removed {digest}"),
+                            ));
+                        }
+                        if w.listed.contains(digest) && !ex_root_has_sst(&ex.root, digest) {
+                            return Some((
+                                "verifier-unlinked-last-copy-of-listed-file".into(),
+                                format!("unlink {path}: the manifest lists {digest} and sst/ has no copy"),
+                            ));
+                        }
+                    } else if name.starts_with("log.") && !w.logs_recorded.contains(name) {
+                        return Some((
+                            "verifier-unlinked-log-no-transaction-recorded".into(),
+                            format!("unlink {path}: no store transaction recorded {name}"),
+                        ));
+                    }
+                }
+                if path.starts_with("mani/MANIFEST.") && path != "mani/MANIFEST.tmp" && !w.in_verify {
+                    return Some((
+                        "manifest-fragment-unlinked-outside-verifier".into(),
+                        format!("unlink {path}"),
+                    ));
+                }
+            }
+            _ => {}
+        }
+    }
+    None
+}
+
+fn ex_root_has_sst(root: &std::path::Path, digest: &str) -> bool {
+    root.join("sst").join(format!("{digest}.sst")).is_file()
+}
+
+pub fn check_presence(ex: &mut Exec) {
+    if let Some((class, detail)) = scan_trace(ex) {
+        ex.violate("C08", class, detail);
+        return;
+    }
+    // presence of every listed file, from the on-disk manifest
+    let frags = crate::books::list_fragments(&ex.root);
+    if let Some((_, path)) = frags.last() {
+        let mut state: BTreeSet<String> = BTreeSet::new();
+        if let Ok(iter) = mani::ManifestIterator::open(path) {
+            for edit in iter.flatten() {
+                for r in edit.rmed() {
+                    state.remove(r);
+                }
+                for a in edit.added() {
+                    state.insert(a.clone());
+                }
+            }
+        }
+        for hex in state.iter() {
+            if !ex_root_has_sst(&ex.root, hex) {
+                ex.violate(
+                    "C08",
+                    "listed-file-missing",
+                    format!("the manifest lists {hex} but sst/{hex}.sst does not exist"),
+                );
+                return;
+            }
+        }
+        ex.probes.add("c08_listed_files_present", state.len() as u64);
+    }
+}
+
+pub fn check_verifier_unlinks(ex: &mut Exec, _trace_from: usize) {
+    let before = ex.c08.unlinks_checked;
+    if let Some((class, detail)) = scan_trace(ex) {
+        ex.violate("C08", class, detail);
+        return;
+    }
+    if ex.c08.unlinks_checked > before {
+        ex.probes.hit("c08_verifier_pass_unlinked_files");
+    }
+}
+
+/// (3) contents unchanged after a verifier pass / reopen.
+pub fn check_contents(ex: &mut Exec, after: &str) {
+    if ex.level_overlap.is_some() {
+        // Reads are already unsound for a reason that has nothing to do with file removal
+        // (recovery misordered two files, known finding F-C01-1); C01 reports that.
+        ex.probes.hit("c08_contents_check_skipped_tree_misordered");
+        return;
+    }
+    let keys: Vec<Vec<u8>> = ex.h.keys.iter().map(|k| k.0.clone()).collect();
+    for key in keys.iter() {
+        let got = match ex.store.as_ref().map(|s| s.load(key)) {
+            Some(Ok((v, _))) => v,
+            Some(Err(e)) => {
+                ex.violate(
+                    "C08",
+                    format!("read-error-after-{after}:{}", crate::exec::err_class(&e)),
+                    format!("load {} after {after}: {e}", crate::exec::fmt_key(key)),
+                );
+                return;
+            }
+            None => return,
+        };
+        let want = ex.model.get(key).cloned().flatten();
+        if got != want {
+            ex.violate(
+                "C08",
+                format!("contents-changed-after-{after}"),
+                format!(
+                    "load {} = {}, model {}",
+                    crate::exec::fmt_key(key),
+                    crate::exec::fmt_val(&got),
+                    crate::exec::fmt_val(&want)
+                ),
+            );
+            return;
+        }
+    }
+}
